@@ -1,26 +1,30 @@
 """C13 -- method cross-references are exact and symmetric.
 
-Rule (all by symbolic path execution of the source, see agstatic/xref_engine.py):
-`Analysis._create_xref` is executed for every opcode region (interval partition of the
-opcode domain at the constants of the if/elif chain); the recorder methods it calls are
-inlined down to the primitive `set.add((..))`.  For the invoke opcodes of the Dalvik table
-(invoke-kind and invoke-kind/range) every path must either be excused by an unresolvable
-method reference or add (TARGET class, TARGET method, OFF) to the caller's get_xref_to()
-set and (CUR class, CUR method, OFF) to the callee's get_xref_from() set, where TARGET is
-decoded from the instruction's own reference index through get_cm_method on the
-instruction's DEX, the callee is `_resolve_method(class, name, proto)` of that reference
-with the class *named by the instruction*, CUR derives from the class being scanned and
-OFF is the first loop variable of get_instructions_idx(); no other opcode reaches these
-records; class-level to/from records are mirrored; REF_TYPE members are the opcode numbers.
-`_resolve_method` looks up (class, name, descriptor) in the table Analysis.add fills with
-the same key shape, creates exactly one ExternalMethod stub under the same key on a miss
-and returns the stored entry.  `get_call_graph` draws an edge m.method -> callee.method for
-component 1 of every tuple of m.get_xref_to() with no filter but no_isolated / has_edge.
+Decided by abstract execution on model DEX files (agstatic/xref_model.py): `Analysis.__init__`, `Analysis.add`,
+`Analysis.create_xref` and everything they call are executed by the shared abstract interpreter (nothing of androguard
+is imported or run) on small model DEX objects -- classes, methods, fields, aligned reference pools, instructions with
+a concrete opcode, a reference index and a symbolic byte offset.  Then every public xref getter of every analysis
+object (and the lookup API) is evaluated the same way and the complete state is compared with the state the property
+prescribes for the model, computed independently from the Dalvik opcode table (agstatic/spec/dalvik.py).  Only computed
+results are judged, so helper methods, generators, dispatch tables, getattr through name tables, equivalent opcode
+tests, get-or-create idioms are all the same to the check; a VIOLATION is a positively computed difference (absent /
+unexpected record in an exactly evaluated set, wrong number of analysis objects, the analysed code raises); whatever
+the interpreter cannot evaluate is an analysis error (exit 2).
+
+Scenarios for C13: F1 one instruction of every opcode (all 256 + payload idents) whose reference index is valid in every
+pool -- only the invoke-kind opcodes may produce method xrefs, each produces the caller's get_xref_to() record
+(target class, target method, offset), the callee's get_xref_from() record (caller class, caller method, offset) and the
+mirrored class-level records with REF_TYPE(op); F2 every invoke opcode on an internal target, a method of the own class,
+an external class, a method the internal class does not define (one external stub), and a repeated call (one shared
+MethodAnalysis, both offsets); F2a invoke on object-/primitive-array classes; F2s a sequence of invokes that repeats
+references (loop-carried state); F6 caller and callee in different DEX files of one analysis, both add orders; F7
+get_call_graph() of the F2 model has an edge exactly where a callee is reported.
 """
 from __future__ import annotations
 
 from ..model import ANALYSIS
 from ..spec import dalvik
+from ..xref_model import check_property
 from ..xref_engine import (Engine, XrefModel, XrefRules, Collector, Mut, rule_registration, rule_add_method_invariant,
                            rule_resolve, rule_call_graph, rule_ref_type_members, rule_fill_before_xref, Exec, run_mutants,
                            m_swap_args, m_set_arg, m_set_receiver, m_rename_call, m_delete_call, m_const, m_replace_src, m_seq, b_rename_local)
@@ -30,21 +34,11 @@ OWN_MUTATION_ADEQUACY = True
 
 
 def core(sink, eng):
-    xm = XrefModel(eng)
-    xr = XrefRules(sink, xm, "C13")
-    xr.run(("method",))
-    rule_registration(sink, xm, "methods")
-    rule_add_method_invariant(sink, eng)
-    table = rule_resolve(sink, eng)
-    fr = eng.func(ANALYSIS, "Analysis._resolve_method")
-    rs = [(fr, [s for s in Exec(eng, root_cls=eng.mod(ANALYSIS).cls("Analysis")).run(fr) if not s.raised])]
-    # the lookup table must be complete (all DEX files) before the first _create_xref call
-    rule_fill_before_xref(sink, eng, xm, rs, only_tables={table})
-    rule_call_graph(sink, eng, xm.getters)
-    rule_ref_type_members(sink, eng, dalvik.INVOKE_OPS)
-    xr.sites_floor(4)
-    sink.floor("ref_type_members", 10)
-    sink.floor("facts", 40)
+    check_property(sink, eng.repo, "C13")
+    sink.floor("scenarios", 4)
+    sink.floor("prescribed_records", 300)
+    sink.floor("call_graph_edges", 1)
+
 
 
 CX = "Analysis._create_xref"
